@@ -61,7 +61,7 @@ CHECKS = {
                       'If the code stops delegating to the primitive the modular harness reports undecided (cover unsatisfied), not a violation. Assumed (harness preconditions, not proved of the typer): arity matches the operator; operands are all of one enum type or none; '
                       'both operands have the same kind; ~ only on integers; the type / enum registries hold the layers the cast harness stubs for their getters. Bool operands are left out of < <= > >= because Kani 0.68 mis-models the ordering of bool. '
                       'In the Verus unit evaluate_operator / evaluate_cast are uninterpreted functions of their arguments and registry getters are assumed. Float16 is stored as f32 (no rounding to half is required or checked). '
-                      'Not covered: that every constant-demanding syntactic position routes through evaluate_constexpr (e.g. template value arguments in typer/types.rs). CBMC IEEE-754 float model.',
+                      'Verus also proves the hand-off parse_and_evaluate_constant_expression (array sizes, template value arguments): the restricted constant has exactly the evaluated value and kind (parse_expr uninterpreted). Not covered: the other callers of evaluate_constexpr (enum values, case labels, attribute arguments). CBMC IEEE-754 float model.',
     },
 }
 
@@ -122,13 +122,15 @@ CHECKS['C05'] = {
 
 CHECKS['C01'] = {
     'engine': 'V',
-    'technique': 'Verus contract on the HLSL operator exporter: same-named operator, operands in source order (sub-expression export uninterpreted)',
+    'technique': 'Verus contracts on the HLSL operator / literal exporter and on the parenthesisation of the printer (precedence tables = C operator table)',
     'level_text': 'Unbounded deductive proof (Verus) on the verbatim text of generate_intrinsic_op and generate_literal: for each of the 37 operator kinds the emitted node is the same-named unary / binary syntax operator '
                   'applied to the syntax exported from operand 0 (and operand 1, in that order); every non-enum constant is emitted as a literal of the same value and kind (negative int / untyped values as a negated untyped literal, '
-                  'INT_MIN and -(2^64-1) included); arity asserts and the unreachable panics are discharged.',
-    'level_note': 'Partial and node-local: TWO node kinds of the exporter (operators, literals). The statement as a whole (bit-identical results of source and emitted program) needs formal semantics of RSSL and HLSL and a proof through '
-                  'exporter + formatter and is not decided: statements, calls, casts, swizzles, parenthesisation (formatter), literal printing are outside this check. '
-                  'Assumed: generate_expression relates its output to its input (uninterpreted `exported_from`). Preconditions: the operator is not one of the five internal helper operations; arity matches.',
+                  'INT_MIN and -(2^64-1) included); arity asserts and the unreachable panics are discharged. On the printer (formatter.rs): get_expression_precedence and get_precedence_associativity are the C / HLSL operator table, and '
+                  'format_subexpression encloses a sub-expression in ( ) whenever the unparenthesised text would group differently (its operator binds weaker than the context, or equally and it sits on the side the operator does not associate to), without disturbing earlier output.',
+    'level_note': 'Partial and node-local: two node kinds of the exporter (operators, literals) and the top-level parenthesisation decision of the printer. The statement as a whole (bit-identical results of source and emitted program) needs formal semantics of RSSL and HLSL and a proof through '
+                  'exporter + formatter and is not decided: statements, calls, casts, swizzles, literal printing, and that the printer hands each child the right context (a full rendering specification) are outside this check. '
+                  'Assumed: generate_expression relates its output to its input (uninterpreted `exported_from`); the leaf printers (format_literal, format_type_id, ...) only append; slice::split_last. Preconditions: the operator is not one of the five internal helper operations; arity matches. '
+                  'Recursion of format_subexpression: termination not verified.',
 }
 
 NOT_APPLICABLE = {
